@@ -111,6 +111,9 @@ MUTANTS = [
     ("try-exit-continue-forgets-try-end", "C04", "R-TRY-EXIT", "compile_node", "crates/bytecode/src/compiler.rs",
      "                    self.compile_try_ends_for_loop_exit();\n                    self.push_jump_back_op(JumpBack, &[], loop_start_ip)?;",
      "                    self.push_jump_back_op(JumpBack, &[], loop_start_ip)?;"),
+    ("err-kind-stringified-again", "C08", "R-ERR-KIND", "run_iterator_next", "crates/runtime/src/vm.rs",
+     "                        Some(KIteratorOutput::Error(error)) => {\n                            return Err(error);\n                        }",
+     "                        Some(KIteratorOutput::Error(error)) => {\n                            return runtime_error!(error.to_string());\n                        }"),
     # ---- R-BUILDER-BAL
     ("builder-string-finish-conditional", "C05", "R-BUILDER-BAL", "compile_string", "crates/bytecode/src/compiler.rs",
      "                        if let Some(result_register) = result.register {\n                            self.push_op(Op::StringFinish, &[result_register]);\n                        }",
